@@ -21,7 +21,7 @@ def run_rt(ctx):
     stats = {"executed": 0, "execute_too_early": 0, "execute_approver_revoked": 0, "execute_unapproved": 0,
              "approve_twice": 0, "approve_without_role": 0, "rerun_closed": 0, "create_bad_signer": 0,
              "delay_increased": 0, "recreated": 0, "delivered_with_wallet_signer": 0, "batch_variants": 0,
-             "executed_readonly_signer": 0}
+             "executed_readonly_signer": 0, "increase_from_above_30_days": 0, "increase_overflow_rejected": 0}
     for e in ev:
         pre = e["pre"]
         b = pre["buf"][e["b"] - 1] if e["b"] else None
@@ -48,6 +48,10 @@ def run_rt(ctx):
             stats["recreated"] += e["ok"] and b["st"] in ("executed", "cancelled")
         elif e["op"] == "increase_delay":
             stats["delay_increased"] += e["ok"]
+            stats["increase_from_above_30_days"] += e["ok"] and pre["delay"] > 30 * 86400
+        elif e["op"] == "increase_delay_big":
+            stats["increase_from_above_30_days"] += e["ok"]
+            stats["increase_overflow_rejected"] += (not e["ok"]) and not e["fits"] and e["xs"] != "0"
     ctx.distinct += len({(e["op"], e["b"], e["x"], e["via"], json.dumps(e["pre"], sort_keys=True)) for e in ev})
     ctx.cov["samples"] += [ev[len(ev) // 2]]
     ctx.cov["rt_classes"] = stats
